@@ -46,6 +46,17 @@ Theorem HtmlBytes_relex_identity : forall evs, lexable evs = true -> relex_ident
 Proof. exact relex_identity_ser. Qed.
 Print Assumptions HtmlBytes_relex_identity.
 
+(* the lexer is strict, for EVERY byte string: whatever it accepts prints back to the input byte
+   for byte, so relex_identity says no more than that the input lexes *)
+Theorem HtmlBytes_lex_sound : forall s ts, html_lex s = Some ts -> flat_map tok_bytes ts = s.
+Proof. exact html_lex_sound. Qed.
+Print Assumptions HtmlBytes_lex_sound.
+
+Theorem HtmlBytes_relex_identity_of_lex : forall s,
+  relex_identity s = match html_lex s with Some _ => true | None => false end.
+Proof. exact relex_identity_of_lex. Qed.
+Print Assumptions HtmlBytes_relex_identity_of_lex.
+
 (* ------------------------------------------------------------------ when events are lexable *)
 Theorem HtmlBytes_safe_lexable : forall evs, forallb safe_ev evs = true -> lexable evs = true.
 Proof. exact safe_lexable. Qed.
@@ -136,8 +147,9 @@ Proof. exact c10_bytes_without_raw_clause_refuted. Qed.
 Print Assumptions C10_bytes_full_statement_refuted.
 
 (* raw HTML not passed through: unsafe off, or escape on, or no HtmlBlock / HtmlInline node; the
-   literals written as is (Raw, EscapedTag: never LT-bearing out of the parser's EscapedTag, and
-   Raw nodes are API-only) carry no LT; any option record otherwise; no S4 / S7 *)
+   literals written as is (Raw, EscapedTag) carry no LT (the parser only builds EscapedTag with the
+   literals ~ ~~ | — src/parser/inlines.rs — and never builds Raw; S7 implies the clause:
+   HtmlBytes_s7_lits); any option record otherwise; no S4 / S7 *)
 Theorem C10_bytes : forall slug o t b,
   s2 t = true -> s3 t = true -> s6w t = true ->
   (forall h, forallb no_active_byte (slug h) = true) -> lits_notlt t = true ->
